@@ -98,6 +98,9 @@ pub struct Tr<'a> {
     pub aux_defs: Vec<String>,
     /// type arguments of the turbofish of the call being translated (for callees with `assoc_params`)
     pub turbofish_types: Option<Vec<String>>,
+    /// monomorphic instance (`inst=P:Type`): configured type -> the trait bounds of the parameter it instantiates; a
+    /// method call on a value of that type means the method of one of those traits (never an inherent method)
+    pub inst_traits: BTreeMap<String, BTreeSet<String>>,
     /// Coq names of `self` and of the `&mut` parameters (what the function returns as their final values)
     pub self_coq: String,
     pub mut_param_coq: Vec<String>,
